@@ -152,7 +152,9 @@ class Verdict:
     def __init__(self, pid, tier, seed):
         self.pid, self.tier, self.seed = pid, tier, seed
         self.t0 = time.time()
-        self.known = [k for k in load_known() if k["property"] == pid or pid in k.get("also", [])]
+        # an open finding is identified by its mechanism (switch) and by the model reproducing the
+        # observed value, so it is recognised in whichever property's check it surfaces
+        self.known = load_known()
         self.open_switches = {k["switch"]: k for k in self.known if k["status"] == "open"}
         self.violations = []
         self.known_seen = {}
@@ -227,7 +229,9 @@ class Verdict:
         ev = {"property_id": self.pid, "tier": self.tier, "seed": self.seed, "level": level,
               "coverage": cov, "assumptions": self.assumptions, "wall_s": round(time.time() - self.t0, 2),
               "violations": len(self.violations)}
-        with open(os.path.join(VERIF, "evidence", self.pid + ".json"), "w") as f:
+        evdir = os.path.join(WORK, "evidence-scratch") if os.environ.get("VERIF_NO_EVIDENCE") else os.path.join(VERIF, "evidence")
+        os.makedirs(evdir, exist_ok=True)
+        with open(os.path.join(evdir, self.pid + ".json"), "w") as f:
             json.dump(ev, f, indent=1, ensure_ascii=False)
         log("[%s] tier=%s states=%d evals=%d nontrivial=%d violations=%d known=%s wall=%.1fs" % (
             self.pid, self.tier, cov["states"], cov["evaluations"], cov["distinct_nontrivial"],
